@@ -2,6 +2,7 @@
 import SPProofs.Card.Lemmas
 
 namespace SPModel
+open Builder Card
 
 /-- Value of a most-significant-first list of bits. -/
 def bval (bs : List Bool) : Nat := bs.foldl (fun acc b => 2 * acc + b.toNat) 0
